@@ -203,6 +203,10 @@ type StoreCheck struct {
 	TIdleCall   int64
 	TIdleRet    int64
 	NoIdle      bool
+	// Stale: the save counted in IdleWrites followed a completed save and acknowledgements of events strictly
+	// older than the tracked position of their vBucket (StaleAcks of them); nothing else happened in between
+	Stale     bool
+	StaleAcks int
 }
 
 func hash64(parts ...uint64) uint64 {
@@ -814,6 +818,50 @@ func RunSession(spec *SessSpec) *Trace {
 				n = 1
 			}
 			atomic.StoreInt32(&s.failNext, int32(n))
+		case "stalecheck": // flush, acknowledge pending events older than their vBucket's tracked position, then count the writes of the next Commit()
+			s.barrier()
+			full.Commit()
+			pos := map[uint16]uint64{}
+			for _, t := range cons.Tracks() {
+				if t.Off.SeqNo > pos[t.VB] {
+					pos[t.VB] = t.Off.SeqNo
+				}
+			}
+			s.pmu.Lock()
+			var stale []*hx.Delivered
+			var keep []*hx.Delivered
+			for _, d := range s.pending {
+				if d.Seq < pos[d.VB] && len(stale) < 6 {
+					stale = append(stale, d)
+				} else {
+					keep = append(keep, d)
+				}
+			}
+			s.pending = keep
+			s.pmu.Unlock()
+			for _, d := range stale {
+				s.ackOne(d)
+			}
+			ck := &StoreCheck{NoIdle: true, Stale: true, StaleAcks: len(stale)}
+			w0 := s.writeCount()
+			ck.TCommitCall = evlog.Tick()
+			full.Commit()
+			ck.TCommitRet = evlog.Tick()
+			ck.IdleWrites = s.writeCount() - w0
+			ck.Store = s.readStore()
+			if len(stale) > 0 {
+				tr.Checks = append(tr.Checks, ck)
+			}
+		case "selfstopcheck": // the client stopped on its own (all streams ended): what does the store hold afterwards?
+			if full.WaitStartReturn(time.Duration(st.Ms) * time.Millisecond) {
+				ck := &StoreCheck{NoIdle: true}
+				for _, r := range env.Log.Filter(func(r evlog.Rec) bool { return r.K == "cons.ack.ret" || r.K == "cons.track" }) {
+					ck.TCommitCall = r.T + 1
+				}
+				ck.TCommitRet = evlog.Tick()
+				ck.Store = s.readStore()
+				tr.Checks = append(tr.Checks, ck)
+			}
 		case "clearfail": // disarm "failnext" (a Commit() with nothing to save does not reach the store)
 			atomic.StoreInt32(&s.failNext, 0)
 		case "check":
